@@ -223,6 +223,9 @@ func c06ColdStart(r *Rng) string {
 }
 
 func (c06) Exec(seed int64, i int, tier string) Record {
+	if i%10 == 4 {
+		return c06OverlapCase(CaseRng(seed, "C06", i))
+	}
 	r := CaseRng(seed, "C06", i)
 	coldViol := ""
 	if r.Chance(30) && c06MaxLen < 1<<20 {
@@ -462,6 +465,234 @@ func (c06) Exec(seed int64, i int, tier string) Record {
 	rec.Info["ops_per_goroutine"] = M
 	if nShared > 0 && sharedCalls >= 2 {
 		rec.Key = fmt.Sprintf("G%d/%s", G, strings.Join(tl, ","))
+	}
+	return rec
+}
+
+// ---------- class overlap-without-threads ----------
+//
+// One case in ten, ONE goroutine: evaluations of shared parsed functions overlap because a user
+// filter function (`reent`, registered next to the registry; it returns its argument) is called in
+// the middle of an evaluation and then itself calls the SAME shared function on another document,
+// another shared function, Parse + call, Retrieve, or a Parse that is rejected (nested up to 3
+// levels). Every answer, inner or outer, must equal the answer obtained alone (with `reent` = the
+// identity and nothing else going on). What threads do to a shared parsed function by preemption,
+// this does deterministically.
+var c06ReentCorpus = []string{
+	"$.d[?(@.a.reent() == 1)]", "$[?(@.a.reent())]", "$.d[?(!@.b.reent())]", "$.d[?(@.a.reent() > $.a.reent())]", "$..a.reent()",
+	"$.d[?(@.a.reent() == 1 || @.b.reent() == 2)]", "$.d[?(@.a.reent() != 1 && @.b)].a.reent()", "$[?(@.a == $[1].b.reent())]",
+	"$.d[?(2 >= @.a.reent())]", "$[?(1 < @.a.reent())].a", "$..[?(@.a.reent() == 2)]", "$.d[?(@.a.reent() =~ /a/)]", "$.c.b[?(@.reent() > 1)]",
+	"$[*].a.reent().twice()", "$.d[?(@.a.twice().reent() == 2)]", "$.d[?($.a.reent() == @.a)]", "$.c.b.reent().max()",
+}
+
+func c06OverlapCase(r *Rng) Record {
+	docs := []interface{}{c06DocA(), c06DocB()}
+	texts := []string{}
+	ngen := r.Range(1, 3)
+	for k := 0; k < ngen; k++ {
+		var d interface{}
+		var p *Path
+		switch r.Weighted([]int{40, 30, 30}) {
+		case 0:
+			d, p = b7GenRecCase(r, 30)
+		case 1:
+			d, p, _ = c04GenCase(r)
+		default:
+			d, p = GenCase(r, DefaultOpts())
+		}
+		if nc, nr, nt := b7InjectReent(r, p, 75); nc+nr+nt == 0 {
+			p.Fns = append(p.Fns, Fn{Name: b7ReentName})
+		}
+		texts = append(texts, Render(p, r))
+		alt := b7AltDoc(r, d, []int{30, 60, 100}[r.Intn(3)])
+		if r.Chance(30) {
+			d, alt = ToJnum(d), ToJnum(alt)
+		}
+		docs = append(docs, d, alt)
+	}
+	ncorp := r.Range(2, 5)
+	for k := 0; k < ncorp; k++ {
+		texts = append(texts, r.Pick(c06ReentCorpus))
+	}
+	for k := r.Range(0, 2); k > 0; k-- {
+		texts = append(texts, r.Pick(c06Corpus))
+	}
+	docTexts := make([]string, len(docs))
+	for d := range docs {
+		docTexts[d] = JSONText(docs[d])
+	}
+	rec := Record{Text: strings.Join(texts, "   |   "), Doc: docTexts[0], Tags: []string{"class:overlap-without-threads"}}
+	rec.Info = map[string]interface{}{"paths": texts, "documents": docTexts}
+
+	const ncfg = 2
+	var alone, live [ncfg]jsonpath.Config
+	for c := 0; c < ncfg; c++ {
+		alone[c] = c05Config(c == 1, nil)
+		alone[c].SetFilterFunction(b7ReentName, fnID)
+		live[c] = c05Config(c == 1, nil)
+	}
+	type item struct {
+		text   string
+		exp    [ncfg][]string
+		shared [ncfg]Parsed
+	}
+	items := make([]*item, len(texts))
+	for k, t := range texts {
+		it := &item{text: t}
+		for c := 0; c < ncfg; c++ {
+			it.exp[c] = make([]string, len(docs))
+			for d := range docs {
+				o := Run(t, docs[d], &alone[c])
+				it.exp[c][d] = c06Canon(o)
+				if o.ErrKind == "panic" {
+					rec.Viol = "panic when run alone: path " + t + " document " + clip(docTexts[d], 300) + ": " + o.Panic
+					rec.Class = "abnormal"
+					return rec
+				}
+			}
+		}
+		items[k] = it
+	}
+	var rejExp [ncfg][]string
+	for c := 0; c < ncfg; c++ {
+		rejExp[c] = make([]string, len(c06Rejected))
+		for k, t := range c06Rejected {
+			f, o := SafeParse(t, &alone[c])
+			rejExp[c][k] = c06Canon(o)
+			if f != nil || o.OK {
+				rejExp[c][k] = "accepted"
+			}
+		}
+	}
+
+	// the live configuration: `reent` performs another operation in the middle of the evaluation
+	maxDepth := r.Range(1, 3)
+	depth, budget, inner, innerSame := 0, 0, 0, 0
+	mismatch := ""
+	var stack []string // what is being evaluated, outermost first
+	var cur []*item
+	var curCfg []int
+	var op func(it *item, c, d int, how int)
+	hook := func(v interface{}) (interface{}, error) {
+		if depth >= maxDepth || budget <= 0 || mismatch != "" || len(cur) == 0 {
+			return v, nil
+		}
+		budget--
+		inner++
+		it, c := cur[len(cur)-1], curCfg[len(curCfg)-1]
+		how := r.Weighted([]int{45, 20, 15, 10, 10})
+		if how == 0 {
+			innerSame++
+		} else {
+			it = items[r.Intn(len(items))]
+			if how == 1 {
+				c = r.Intn(ncfg)
+			}
+		}
+		op(it, c, r.Intn(len(docs)), how)
+		return v, nil
+	}
+	for c := 0; c < ncfg; c++ {
+		live[c].SetFilterFunction(b7ReentName, hook)
+	}
+	nShared := 0
+	for _, it := range items {
+		for c := 0; c < ncfg; c++ {
+			it.shared[c], _ = SafeParse(it.text, &live[c])
+			if it.shared[c] != nil {
+				nShared++
+			}
+		}
+	}
+	op = func(it *item, c, d int, how int) {
+		var got, what string
+		switch {
+		case how <= 1 && it.shared[c] != nil:
+			what = "shared parsed function"
+			if how == 0 && depth > 0 {
+				what = "the SAME shared parsed function"
+			}
+		case how == 3:
+			what = "Retrieve"
+		case how == 4:
+			k := r.Intn(len(c06Rejected))
+			f, o := SafeParse(c06Rejected[k], &live[c])
+			got = c06Canon(o)
+			if f != nil || o.OK {
+				got = "accepted"
+			}
+			if got != rejExp[c][k] && mismatch == "" {
+				mismatch = fmt.Sprintf("Parse(%q) inside [%s]: %s, alone: %s", c06Rejected[k], strings.Join(stack, " > "), clip(got, 300), clip(rejExp[c][k], 300))
+			}
+			return
+		default:
+			what = "Parse + call"
+		}
+		stack = append(stack, fmt.Sprintf("%s of %s (config %d) on document %d", what, it.text, c, d))
+		cur, curCfg = append(cur, it), append(curCfg, c)
+		depth++
+		switch what {
+		case "Retrieve":
+			got = c06Canon(c06Retrieve(it.text, docs[d], &live[c]))
+		case "Parse + call":
+			f, o := SafeParse(it.text, &live[c])
+			if f != nil {
+				o = SafeCall(f, docs[d])
+			}
+			got = c06Canon(o)
+		default:
+			got = c06Canon(SafeCall(it.shared[c], docs[d]))
+		}
+		depth--
+		cur, curCfg = cur[:len(cur)-1], curCfg[:len(curCfg)-1]
+		if got != it.exp[c][d] && mismatch == "" {
+			mismatch = fmt.Sprintf("[%s]: answered %s; alone: %s (document %s)", strings.Join(stack, " > "), clip(got, 300), clip(it.exp[c][d], 300), clip(docTexts[d], 300))
+		}
+		stack = stack[:len(stack)-1]
+	}
+	M := r.Range(20, 80)
+	for n := 0; n < M && mismatch == ""; n++ {
+		budget = 60
+		depth = 0
+		op(items[r.Intn(len(items))], r.Intn(ncfg), r.Intn(len(docs)), r.Weighted([]int{0, 70, 15, 15, 0}))
+	}
+	if mismatch != "" {
+		rec.Viol = "one goroutine, overlapping evaluations: " + mismatch
+		rec.Class = "concurrent-differs"
+		return rec
+	}
+	// afterwards, alone again: the shared functions still answer as before
+	maxDepth = 0
+	for _, it := range items {
+		for c := 0; c < ncfg; c++ {
+			if it.shared[c] == nil {
+				continue
+			}
+			for d := range docs {
+				if got := c06Canon(SafeCall(it.shared[c], docs[d])); got != it.exp[c][d] {
+					rec.Viol = fmt.Sprintf("after the overlapping evaluations the shared function of %s (config %d) answers %s on %s; alone before: %s",
+						it.text, c, clip(got, 300), clip(docTexts[d], 300), clip(it.exp[c][d], 300))
+					rec.Class = "concurrent-differs"
+					return rec
+				}
+			}
+		}
+	}
+	rec.Info["outer_operations"] = M
+	rec.Info["inner_operations"] = inner
+	if inner > 0 {
+		rec.Tags = append(rec.Tags, "overlap:inner-operations-ran")
+	}
+	if innerSame > 0 {
+		rec.Tags = append(rec.Tags, "overlap:same-function-re-entered")
+	}
+	if c06Race {
+		rec.Tags = append(rec.Tags, "race-detector:on")
+	} else {
+		rec.Tags = append(rec.Tags, "race-detector:off")
+	}
+	if nShared > 0 && innerSame > 0 {
+		rec.Key = fmt.Sprintf("overlap/%d/%s", len(items), c02Skeleton(texts[0], 12))
 	}
 	return rec
 }
